@@ -42,7 +42,10 @@ XS = 'http://www.w3.org/2001/XMLSchema'
 MARK = 'ZZEXPANDEDMARKERZZ'
 MODES = ('always', 'remote', 'nonlocal', 'never')
 KINDS = ('str', 'bytes', 'StringIO', 'BytesIO', 'text_file', 'binary_file', 'raw_nonseekable', 'buffered_nonseekable',
-         'path', 'file_url', 'remote_url')
+         'path', 'file_url', 'remote_url', 'remote_url_nopath', 'remote_url_query', 'remote_url_port', 'remote_url_root', 'remote_response')
+# remote URLs with an empty path component (the base URL of such a resource is not a directory URL)
+REMOTE_SHAPES = {'remote_url_nopath': 'http://vk.example', 'remote_url_query': 'http://vk.example?doc=1',
+                 'remote_url_port': 'http://vk.example:8080', 'remote_url_root': 'http://vk.example/'}
 ROLES = ('instance', 'main_schema', 'included_schema', 'imported_schema')
 REMOTE = 'http://vk.example/d/'
 
@@ -178,7 +181,7 @@ def applies(mode, kind, role, base='none'):
         return True
     if mode == 'never':
         return False
-    if kind == 'remote_url':
+    if kind.startswith('remote_url') or kind == 'remote_response':
         remote, local = True, False
     elif kind in ('path', 'file_url') or role in ('included_schema', 'imported_schema'):
         remote, local = False, True
@@ -198,6 +201,8 @@ def run_cell(xmlschema, probes_counter, fx_dir, mode, role, kind, pname, payload
     with open(path, 'wb') as f:
         f.write(data)
     opener.bodies[REMOTE + os.path.basename(path)] = data
+    for u in REMOTE_SHAPES.values():
+        opener.bodies[u] = data
     handles = []
 
     def make_source(k):
@@ -229,6 +234,12 @@ def run_cell(xmlschema, probes_counter, fx_dir, mode, role, kind, pname, payload
             return 'file://' + urllib.request.pathname2url(path)
         if k == 'remote_url':
             return REMOTE + os.path.basename(path)
+        if k == 'remote_response':
+            # what urlopen() returns for a remote URL: a stream that knows its remote URL
+            return urllib.response.addinfourl(io.BytesIO(data), {}, REMOTE + os.path.basename(path)) \
+                if role in ('instance', 'main_schema') else None
+        if k in REMOTE_SHAPES:
+            return REMOTE_SHAPES[k] if role in ('instance', 'main_schema') else None
         raise ValueError(k)
 
     result = {'raised': None, 'tree': None, 'skipped': False}
@@ -329,7 +340,7 @@ def run_shard(spec, res):
                     if lazy and kind in ('raw_nonseekable', 'buffered_nonseekable'):
                         continue
                     bases = ('none',)
-                    if role in ('instance', 'main_schema') and kind not in ('path', 'file_url', 'remote_url') and \
+                    if role in ('instance', 'main_schema') and not kind.startswith(('path', 'file_url', 'remote_url', 'remote_response')) and \
                             enc == 'utf-8' and pname in ('internal_used', 'no_doctype', 'external_system', 'parameter_internal'):
                         bases = ('none', 'remote', 'local')
                     for base in bases:
@@ -371,6 +382,10 @@ def judge(res, xmlschema, counter, fx_dir, cell, payload, result, events):
         if declares == 'skippable' and raised and raised != 'forbidden' and 'undefined entity' in (result.get('msg') or '') \
                 and not expanded and not fetched:
             res.count('skippable_declaration:refused_as_undefined_entity')
+            return
+        if raised != 'forbidden' and kind == 'remote_response' and mode == 'remote':
+            res.violation('remote-response-object-not-treated-as-remote-data', cell,
+                          f'{cell}: outcome {raised or "parsed"}; expanded={expanded}')
             return
         if raised != 'forbidden':
             res.violation(f'payload-not-refused:{role}:{kind}:{cell["payload"]}', cell,
